@@ -441,15 +441,18 @@ typedef struct {
 	char cmp;
 	c06_result ref, cur;
 	unsigned long runs, diffs;
+	bool hung;   // a run did not terminate: the remaining items of this sweep are skipped (each would wait again)
 } sweep;
 
 static void sweep_one(sweep *s, const char *spec)
 {
 	c06_slicing sl;
+	if (s->hung) return;
 	if (!c06_slicing_parse(spec, &sl)) { printf(" bad-slicing=%s", spec); return; }
 	if (s->fresh) { lzma_end(&s->strm); lzma_stream z = LZMA_STREAM_INIT; s->strm = z; }
 	do_run(s->c, &s->strm, s->in, s->in_len, &sl, s->fin, &s->cur);
 	++s->runs;
+	if (s->cur.ret == C06_HANG) s->hung = true;
 	if (!c06_result_same(&s->ref, &s->cur, s->cmp)) {
 		if (s->diffs++ < 3) {
 			printf(" diff=%s%s ", spec, i06_null_in ? "/N" : "");
@@ -512,6 +515,7 @@ int main(void)
 			c06_slicing w;
 			c06_slicing_parse("W", &w);
 			do_run(&c, &s.strm, in, n, &w, s.fin, &s.ref);
+			if (s.ref.ret == C06_HANG) s.hung = true;
 			char buf[256];
 			// the text before the diffs is printed last; collect diffs first
 			// (diff fragments are written directly, so print the header now)
